@@ -93,7 +93,9 @@ func (m *MessageBuffer) Send(msg []byte) error {
 		return ErrClosed
 	}
 
-	l := len(msg)
+	// Account for the size of [msg] inside the batch encoding, so that no
+	// emitted batch exceeds [maxSize].
+	l := batchedSize(msg)
 	if l > m.maxSize {
 		return ErrMessageTooLarge
 	}
